@@ -1,6 +1,254 @@
 import Driver.Util
+import Sqfs.Model.ImageValidate
+import Sqfs.Model.DirWriter
+import Sqfs.Model.MetaWriter
+import Sqfs.Model.IdTable
+import Sqfs.Model.Finish
+import Sqfs.Model.Numbering
+/-!
+`sqfsmodel c03 <mode>`
+
+* `parse`            stdin: `unz` description → canonical tree description (JSON lines)
+* `validate [dev]`   stdin: `unz` description (+ `d` answers) → `viol <code> <detail>` lines + `summary`
+* `blockreq [all]`   stdin: `unz` description → `blk` request lines for `unz -b`
+* `ops`              line protocol, the writer-piece models on the same lines as `harness/h_c03.c`
+-/
 namespace Driver.C03
-/-- stub: the model driver for C03 is not built yet -/
-def run (_args : List String) : IO Unit := do
-  IO.eprintln "sqfsmodel: model C03 not built yet"
+open Sqfs.Image
+
+partial def readAll (h : IO.FS.Stream) (acc : Array String) : IO (Array String) := do
+  let line ← h.getLine
+  if line.isEmpty then return acc
+  readAll h (acc.push line)
+
+/-! ### writer-piece ops -/
+section Ops
+open Sqfs.DirWriter Sqfs.MetaWriter Sqfs.IdTable Sqfs.Consts
+
+/-- test codecs, mirrored in harness/h_c03.c -/
+def rawCodec : Codec := fun _ => none
+
+def toyCodec : Codec := fun x =>
+  match x with
+  | [] => none
+  | b :: _ => if x.length ≥ 4 ∧ x.all (· == b) then some [b, UInt8.ofNat (x.length % 256), UInt8.ofNat (x.length / 256 % 256)] else none
+
+/-- off-contract codec (same function as `Sqfs.C03.Witness.lz4Short`) -/
+def growCodec : Codec := fun x =>
+  if 0 < x.length ∧ x.length < 13 then some (UInt8.ofNat (x.length * 16) :: x) else none
+
+def codecByName : String → Option Codec
+  | "raw" => some rawCodec
+  | "toy" => some toyCodec
+  | "grow" => some growCodec
+  | _ => none
+
+def parseEntConseq (tok : String) : Option DEnt :=
+  match tok.splitOn "/" with
+  | [r, n, t, nm] => do
+    let name ← fromHex nm
+    pure ⟨← r.toNat?, ← n.toNat?, ← t.toNat?, name⟩
+  | _ => none
+
+def octal (s : String) : Option Nat :=
+  s.toList.foldl (fun acc c => acc.bind (fun a => if '0' ≤ c ∧ c ≤ '7' then some (a * 8 + (c.toNat - 48)) else none)) (some 0)
+
+/-- (name, num, ref, mode) -/
+def parseEntDirw (tok : String) : Option (List UInt8 × Nat × Nat × Nat) :=
+  match tok.splitOn "/" with
+  | [nm, n, r, m] => do
+    let name ← fromHex nm
+    pure (name, ← n.toNat?, ← r.toNat?, (← octal m) % 65536)
+  | _ => none
+
+def addAllEntries (old : Bool) : List (List UInt8 × Nat × Nat × Nat) → Nat → List DEnt → Except String (List DEnt)
+  | [], _, acc => .ok acc.reverse
+  | (nm, n, r, m) :: rest, i, acc =>
+    let res := if old then
+        (match getType m with
+         | none => AddResult.unsupported
+         | some t => if nm = [] ∨ n % 4294967296 < 1 then .argInvalid else .ok ⟨r, n % 4294967296, t, nm⟩)
+      else addEntry nm (n % 4294967296) r m
+    match res with
+    | .ok e => addAllEntries old rest (i + 1) (e :: acc)
+    | .unsupported => .error s!"err -{errUnsupported} at {i}"
+    | .argInvalid => .error s!"err -{errArgInvalid} at {i}"
+
+def opDirw (old : Bool) (off0 hlinks xattr parent : Nat) (ents : List (List UInt8 × Nat × Nat × Nat)) : String :=
+  match addAllEntries old ents 0 [] with
+  | .error e => e
+  | .ok es =>
+    let (blk, off) := advance 8194 0 0 off0
+    let runs := dirEnd 8194 blk off es
+    let bytes := (runs.map encodeRun).flatten
+    let ref := (blk <<< 16) ||| off
+    let ino := createInodeCap (if old then none else some maxIndex) ref runs es.length hlinks xattr parent
+    let head := s!"ok {toHexTok bytes} size={dirSizeOf runs} ref={ref} count={es.length}"
+    if ino.ext then
+      let idx := if ino.index.isEmpty then "-" else
+        ",".intercalate (ino.index.map (fun (i, b, n) => s!"{i};{b};{toHexTok n}"))
+      s!"{head} inode=ext {ino.nlink} {ino.size} {ino.startBlock} {ino.offset} {ino.parent} {ino.xattr} n={ino.index.length % 65536} idx={idx}"
+    else
+      s!"{head} inode=basic {ino.nlink} {ino.size} {ino.startBlock} {ino.offset} {ino.parent} idx=-"
+
+def le16b (v : Nat) : List UInt8 := [UInt8.ofNat (v % 256), UInt8.ofNat (v / 256 % 256)]
+
+def blocksBytes (bs : List Block) : List UInt8 := (bs.map (fun b => le16b b.header ++ b.stored)).flatten
+
+def opMeta (cmp : Codec) (chunks : List (List UInt8)) : String :=
+  let st := chunks.foldl (append cmp) {}
+  let fin := flush cmp st
+  s!"pos={st.blockOffset},{st.cur.length} end={fin.blockOffset},{fin.cur.length} {toHexTok (blocksBytes fin.out)}"
+
+def opIds (lim : Nat) (ids : List Nat) (range : Bool) : String :=
+  let rec go : List Nat → Nat → List Nat → List Nat → List Nat × List Nat × Option Nat
+    | [], _, tbl, acc => (tbl, acc.reverse, none)
+    | id :: rest, k, tbl, acc =>
+      match step lim tbl id with
+      | none => (tbl, acc.reverse, some k)
+      | some (i, t) => go rest (k + 1) t (storedIndex i :: acc)
+  let (tbl, idx, fail) := go ids 0 [] []
+  let head := if range then s!"idx sum={idx.foldl (· + ·) 0}" else "idx" ++ String.join (idx.map (fun i => s!" {i}"))
+  match fail with
+  | some k => s!"{head} overflow-at={k}"
+  | none =>
+    let bytes := (tbl.map (fun v => le16b (v % 65536) ++ le16b (v / 65536 % 65536))).flatten
+    let (blks, _) := writeTable rawCodec bytes
+    let sz := blks.foldl (fun a b => a + 2 + b.stored.length) 0
+    s!"{head} id_count={superIdCount tbl} table_bytes={sz}"
+
+def parseTbl (s : String) : Option (Option Sqfs.Finish.Tbl) :=
+  if s == "-" then some none else
+  match (s.splitOn ",").mapM String.toNat? with
+  | some [a, b] => some (some ⟨a, b⟩)
+  | _ => none
+
+def parseXTbl (s : String) : Option (Option Sqfs.Finish.XTbl) :=
+  if s == "-" then some none else
+  match (s.splitOn ",").mapM String.toNat? with
+  | some [a, b, c] => some (some ⟨a, b, c⟩)
+  | _ => none
+
+def opFinish (ws : List String) : String :=
+  match ws with
+  | [de, ib, db, fr, ex, id, xa, dv] =>
+    match de.toNat?, ib.toNat?, db.toNat?, parseTbl fr, parseTbl ex, parseTbl id, parseXTbl xa, dv.toNat? with
+    | some de, some ib, some db, some fr, some ex, some (some id), some xa, some dv =>
+      let l := Sqfs.Finish.finish ⟨de, ib, db, fr, ex, id, xa, dv⟩
+      s!"{l.inodeTable} {l.dirTable} {l.fragTable} {l.exportTable} {l.idTable} {l.xattrTable} {l.bytesUsed} {l.fileSize}"
+    | _, _, _, _, _, _, _, _ => "bad-op"
+  | _ => "bad-op"
+
+section Num
+open Sqfs.Numbering
+
+/-- spec → forest; returns the rest of the input after a `)` or at the end -/
+def parseForest : Nat → List Char → Option (List Tree × List Char)
+  | 0, _ => none
+  | _ + 1, [] => some ([], [])
+  | _ + 1, ')' :: r => some ([], ')' :: r)
+  | f + 1, 'f' :: r => (parseForest f r).map (fun (ts, r') => (Tree.file :: ts, r'))
+  | f + 1, 'h' :: r => (parseForest f r).map (fun (ts, r') => (Tree.hlink :: ts, r'))
+  | f + 1, '(' :: r =>
+    match parseForest f r with
+    | some (cs, ')' :: r1) => (parseForest f r1).map (fun (ts, r') => (Tree.dir cs :: ts, r'))
+    | _ => none
+  | _ + 1, _ => none
+
+mutual
+def showT : NTree → String
+  | .file n => toString n
+  | .hlink => "-"
+  | .dir n cs => "(" ++ showL cs ++ ")" ++ toString n
+def showL : List NTree → String
+  | [] => ""
+  | [t] => showT t
+  | t :: r => showT t ++ " " ++ showL r
+end
+
+def opNum (spec : String) : String :=
+  match parseForest (spec.length + 2) spec.toList with
+  | some (cs, []) =>
+    let r := numberRoot cs
+    s!"{showT r.1} count={r.2}"
+  | _ => "bad-op"
+
+end Num
+
+def opStep (line : String) : String :=
+  match words line with
+  | "finish" :: ws => opFinish ws
+  | ["num"] => opNum ""
+  | ["num", spec] => opNum spec
+  | "conseq" :: off :: ents =>
+    match off.toNat?, ents.mapM parseEntConseq with
+    | some o, some es => if es.isEmpty then "bad-op" else toString (conseqCount o es)
+    | _, _ => "bad-op"
+  | op :: off0 :: hl :: xa :: par :: ents =>
+    if op == "dirw" || op == "dirwold" then
+      match off0.toNat?, hl.toNat?, xa.toNat?, par.toNat?, ents.mapM parseEntDirw with
+      | some o, some h, some x, some p, some es => opDirw (op == "dirwold") o h (x % 4294967296) (p % 4294967296) es
+      | _, _, _, _, _ => "bad-op"
+    else if op == "meta" then
+      match codecByName off0, (hl :: xa :: par :: ents).mapM fromHex with
+      | some c, some chunks => opMeta c chunks
+      | _, _ => "bad-op"
+    else if op == "ids" || op == "idsold" then
+      match (off0 :: hl :: xa :: par :: ents).mapM String.toNat? with
+      | some ids => opIds (if op == "ids" then limit else 0x10000) (ids.map (· % 4294967296)) false
+      | none => "bad-op"
+    else "bad-op"
+  | ["meta", c] => match codecByName c with
+    | some c => opMeta c []
+    | none => "bad-op"
+  | "meta" :: c :: chunks => match codecByName c, chunks.mapM fromHex with
+    | some c, some chunks => opMeta c chunks
+    | _, _ => "bad-op"
+  | ["blk", c, fl, h] => match codecByName c, fl.toNat?, fromHex h with
+    | some c, some f, some d =>
+      let r := processBlock c ⟨f, d⟩
+      s!"{r.flags} {toHexTok r.data}"
+    | _, _, _ => "bad-op"
+  | "ids" :: ids => match ids.mapM String.toNat? with
+    | some ids => opIds limit (ids.map (· % 4294967296)) false
+    | none => "bad-op"
+  | "idsold" :: ids => match ids.mapM String.toNat? with
+    | some ids => opIds 0x10000 (ids.map (· % 4294967296)) false
+    | none => "bad-op"
+  | ["idsrange", n] => match n.toNat? with
+    | some n => opIds limit (List.range n) true
+    | none => "bad-op"
+  | ["idsrangeold", n] => match n.toNat? with
+    | some n => opIds 0x10000 (List.range n) true
+    | none => "bad-op"
+  | ["lz4short", h] => match fromHex h with
+    | some d => match growCodec d with
+      | some c => s!"ret={c.length} out={toHexTok c}"
+      | none => "uncovered"
+    | none => "bad-op"
+  | _ => "bad-op"
+
+end Ops
+
+def run (args : List String) : IO Unit := do
+  let out ← IO.getStdout
+  match args with
+  | ["parse"] =>
+    let d := Description.ofLines (← readAll (← IO.getStdin) #[])
+    for l in parseReport d do out.putStrLn l
+  | ["validate"] =>
+    let d := Description.ofLines (← readAll (← IO.getStdin) #[])
+    for l in validateReport d do out.putStrLn l
+  | ["validate", n] =>
+    let d := Description.ofLines (← readAll (← IO.getStdin) #[])
+    for l in validateReport d (n.toNat?.getD 4096) do out.putStrLn l
+  | ["blockreq"] =>
+    let d := Description.ofLines (← readAll (← IO.getStdin) #[])
+    for l in blockRequests d false do out.putStrLn l
+  | ["blockreq", "all"] =>
+    let d := Description.ofLines (← readAll (← IO.getStdin) #[])
+    for l in blockRequests d true do out.putStrLn l
+  | ["ops"] => lineLoop (← IO.getStdin) out opStep
+  | _ => IO.eprintln "usage: sqfsmodel c03 parse | validate [devblk] | blockreq [all] | ops"
+
 end Driver.C03
